@@ -24,6 +24,10 @@ mod leaf_stage;
 mod leaf_updater;
 #[cfg(nomt_verif)]
 pub use leaf_updater::verif as leaf_updater_verif;
+#[cfg(nomt_verif)]
+pub use branch_updater::verif as branch_updater_verif;
+#[cfg(nomt_verif)]
+pub use branch_stage::verif as branch_stage_verif;
 
 #[cfg(test)]
 mod tests;
